@@ -250,26 +250,31 @@ Definition default_val (t : ty) : pyval :=
   | _ => PStrV []
   end.
 
+(* the loop over struct.fields.items() of read_struct: [rd] reads a nested
+   record, [sz] = get_type_size *)
+Fixpoint read_fields (h : list seg) (rd : str -> Z -> res sval) (sz : ty -> option Z) (g : Z)
+                     (fs : fields) (idx : Z) : res (list (str * sval)) :=
+  match fs with
+  | [] => Ok []
+  | (f, t) :: r =>
+    rdo v <- match t with
+             | TRecord m => rd m idx
+             | _ => rdo c <- get_cell h g idx;
+                    Ok (match c with Some c' => cell_sval c' | None => SV (default_val t) end)
+             end;
+    match sz t with
+    | None => Crash K_KEY
+    | Some n => rdo rest <- read_fields h rd sz g r (idx + n); Ok ((f, v) :: rest)
+    end
+  end.
+
 (* QvmEval.read_struct(segment, base_idx, struct_type): every field is read *)
 Fixpoint read_struct (h : list seg) (env : renv) (n : str) (g base : Z) : res sval :=
   match env with
   | [] => Crash K_KEY                            (* self.user_types[struct_type.name] *)
   | (n', fs) :: env' =>
     if str_eqb n n' then
-      rdo l <- (fix go (fs : fields) (idx : Z) : res (list (str * sval)) :=
-                  match fs with
-                  | [] => Ok []
-                  | (f, t) :: r =>
-                    rdo v <- match t with
-                             | TRecord m => read_struct h env' m g idx
-                             | _ => rdo c <- get_cell h g idx;
-                                    Ok (match c with Some c' => cell_sval c' | None => SV (default_val t) end)
-                             end;
-                    match type_size env' t with
-                    | None => Crash K_KEY
-                    | Some sz => rdo rest <- go r (idx + sz); Ok ((f, v) :: rest)
-                    end
-                  end) fs base;
+      rdo l <- read_fields h (fun m i => read_struct h env' m g i) (type_size env') g fs base;
       Ok (SRec l)
     else read_struct h env' n g base
   end.
@@ -302,20 +307,20 @@ Inductive atree :=
 | ARec (s : sval)
 | ANode (l : list atree).
 
+(* for _ in range(lbound, ubound + 1): sub_array = read(base_idx); base_idx += stride *)
+Fixpoint read_loop (rd : Z -> res atree) (stride : Z) (n : nat) (b : Z) : res (list atree) :=
+  match n with
+  | O => Ok []
+  | S n' => rdo x <- rd b; rdo r <- read_loop rd stride n' (b + stride); Ok (x :: r)
+  end.
+
 (* read_sub_array: one list per index of the first remaining dimension; the
    base index advances by prod(remaining dimension sizes) * element_size *)
 Fixpoint read_sub (leaf : Z -> res atree) (es : Z) (bs : list (Z * Z)) (base : Z) : res atree :=
   match bs with
   | [] => leaf base
   | (lb, ub) :: bs' =>
-    let stride := prod_list (dims bs') * es in
-    rdo l <- (fix loop (n : nat) (b : Z) : res (list atree) :=
-                match n with
-                | O => Ok []
-                | S n' => rdo x <- read_sub leaf es bs' b;
-                          rdo r <- loop n' (b + stride);
-                          Ok (x :: r)
-                end) (Z.to_nat (ub - lb + 1)) base;
+    rdo l <- read_loop (read_sub leaf es bs') (prod_list (dims bs') * es) (Z.to_nat (ub - lb + 1)) base;
     Ok (ANode l)
   end.
 
@@ -537,8 +542,7 @@ Fixpoint deval (e : dexpr) : xres :=
   | EStr t => XV (PStrV t)
   | EParen a => deval a
   | ELv n idx path =>
-    eval_lvalue n ((fix go (l : list dexpr) : list xres :=
-                      match l with [] => [] | x :: r => deval x :: go r end) idx) path
+    eval_lvalue n (map deval idx) path
   | EUn op a =>
     match dtype di a with
     | None => XCrash K_COMPILE
